@@ -4,6 +4,8 @@
 #include <vf.hpp>
 
 #include <fcppt/extract_from_string.hpp>
+#include <fcppt/extract_from_string_locale.hpp>
+#include <fcppt/output_to_string_locale.hpp>
 #include <fcppt/from_std_wstring.hpp>
 #include <fcppt/from_std_wstring_locale.hpp>
 #include <fcppt/narrow.hpp>
@@ -463,6 +465,23 @@ void text_grouping_locale(char const *tn)
     std::locale old;
     ~restore() { std::locale::global(old); }
   } guard{std::locale::global(std::locale(std::locale(std::locale::classic(), new grouping_punct<char>), new grouping_punct<wchar_t>))};
+  // the explicit-locale variants, independent of the global locale: written and read with the SAME locale object
+  // (classic - while the global locale groups digits - and a second grouping locale object)
+  {
+    std::locale const grouping(std::locale(std::locale::classic(), new grouping_punct<char>), new grouping_punct<wchar_t>);
+    for (T v : vals)
+      for (std::locale const &loc : {std::locale::classic(), grouping})
+      {
+        vf::add_evals(1);
+        std::string const s = fcppt::output_to_string_locale<std::string>(v, loc);
+        std::wstring const w = fcppt::output_to_string_locale<std::wstring>(v, loc);
+        auto const r = fcppt::extract_from_string_locale<T>(s, loc);
+        auto const r2 = fcppt::extract_from_string_locale<T>(w, loc);
+        if (!r.has_value() || r.get_unsafe() != v || !r2.has_value() || r2.get_unsafe() != v)
+          vf::violation(e + "/explicit-locale-roundtrip", "mismatch", "value " + std::to_string(v) + " written as \"" + s + "\"");
+        VF_COUNT("text/explicit-locale-roundtrips");
+      }
+  }
   for (T v : vals)
   {
     vf::add_evals(1);
